@@ -57,6 +57,11 @@ func (c *caseOrderChecker) checkTypeSwitch(s *ast.TypeSwitchStmt) {
 		cc := cc.(*ast.CaseClause)
 		for _, x := range cc.List {
 			typ := c.ctx.TypeOf(x)
+			if b, ok := typ.(*types.Basic); ok && b.Kind() == types.UntypedNil {
+				// `case nil` is taken only for a nil interface value, which
+				// no interface case matches: it's reachable wherever it stands.
+				continue
+			}
 			if typ == linter.UnknownType {
 				c.warnUnknownType(cc, x)
 				return
